@@ -460,6 +460,17 @@ impl World {
         }
         v
     }
+    /// Strict reading of "confirmed by traffic": a confirmation only extends a mapping that is
+    /// still alive when the traffic arrives (used for a label only, see the judgement calls).
+    fn strictly_alive(&self, ip: &Ip, mac: &Mac) -> bool {
+        let mut until: Option<i64> = None;
+        for c in self.valid.iter().filter(|c| c.ip == *ip && c.mac == *mac && c.seq > self.flush_seq) {
+            if c.why != "traffic-confirmation" || until.map_or(false, |u| c.t < u) {
+                until = Some(until.unwrap_or(i64::MIN).max(c.t + LIFETIME_MS));
+            }
+        }
+        until.map_or(false, |u| self.now < u)
+    }
     fn ever_claimed(&self, ip: &Ip, mac: &Mac) -> bool {
         self.valid.iter().any(|c| c.ip == *ip && c.mac == *mac && c.seq > self.flush_seq)
     }
@@ -873,6 +884,24 @@ impl World {
             }
             if learned.len() > 1 {
                 ctx.label("nexthop:two-legitimate-addresses");
+            }
+            if !self.strictly_alive(&nh, &l2_dst) {
+                // smoltcp's reset_expiry_if_existing() also revives an entry that had already expired
+                ctx.label("expired-entry-revived-by-traffic");
+                // C16_STRICT_CONFIRM=1 adopts the strict reading of the statement's last clause
+                static STRICT: std::sync::OnceLock<bool> = std::sync::OnceLock::new();
+                if *STRICT.get_or_init(|| std::env::var("C16_STRICT_CONFIRM").is_ok()) {
+                    report(
+                        ctx,
+                        Fail::new(
+                            "l2dst:expired-entry-revived-by-traffic",
+                            format!(
+                                "t={} ms: packet for {} (next hop {}) was transmitted to {} although every ARP/NDISC claim of that address is older than 60 s and the unicast traffic that 'confirmed' it arrived only after the mapping had expired",
+                                self.now, dst, nh, l2_dst
+                            ),
+                        ),
+                    )?;
+                }
             }
             let freshest = self.valid.iter().filter(|c| c.ip == nh && c.mac == l2_dst && c.seq > self.flush_seq).map(|c| self.now - c.t).min().unwrap_or(0);
             if freshest == LIFETIME_MS - 1 {
